@@ -1,14 +1,14 @@
 --------------------------- MODULE MC_Runtime_apa ---------------------------
 (* Apalache instance of Runtime.tla (the code as it is: all hazard switches off, I/O faults on) for an INDUCTIVE     *)
-(* invariant: PureResults holds for 3 threads and ANY number of calls per thread (MaxCalls is only a type bound).    *)
+(* invariant: PureResults holds for 2 threads and ANY number of calls per thread (MaxCalls is only a type bound).    *)
 (*   apalache-mc check --init=Init   --inv=IndInv      --length=0 MC_Runtime_apa.tla      (initial states)           *)
 (*   apalache-mc check --init=IndInv --inv=IndInv      --length=1 MC_Runtime_apa.tla      (inductive step)           *)
 (*   apalache-mc check --init=IndInv --inv=PureResults --length=0 MC_Runtime_apa.tla      (it implies the property)  *)
 EXTENDS Naturals, Sequences, FiniteSets
 
-Threads == {"t1", "t2", "t3"}
-Names == {"be/banks", "cz/banks", "isbn"}
-Codes == {"nl", "el", "xi", "gb", "zz"}
+Threads == {"t1", "t2"}
+Names == {"be/banks", "isbn"}
+Codes == {"el", "xi", "zz"}
 MaxCalls == 1000000
 StoreFirst == FALSE
 BaseKey == FALSE
@@ -49,7 +49,7 @@ TypeOK ==
   /\ imp \in [CCDom -> {"absent", "body_done", "attached"}]
   /\ pc \in [Threads -> PCs]
   /\ arg \in [Threads -> Names \cup Codes \cup {"none"}]
-  /\ calls \in [Threads -> 0..MaxCalls]
+  /\ calls \in [Threads -> Nat]
   /\ ret \in [Threads -> RetVals]
   /\ held \in [Threads -> {"none"}]
 
